@@ -22,12 +22,20 @@ class Flow:
         return self.e.tcp(self.sp, self.dp, self.isn if seq is None else seq, 0, flags, payload)
 
     def syn(self):
-        """Send a SYN, learn the cookie from the SYN-ACK (None if not answered as expected)."""
-        r = self.ctx.send(self.syn_frame())
-        if r.kind != "R":
-            return None
-        a = pkt.parse(r.reply)
-        if a.get("flags") != (SYN | ACK):
+        """Send a SYN, learn the cookie from the SYN-ACK (None if not answered as expected).  If the cookie is already that
+        of another flow of the current table (birthday collision, see Ctx.claim_cookie) the handshake is repeated from
+        another source port."""
+        for _attempt in range(4):
+            r = self.ctx.send(self.syn_frame())
+            if r.kind != "R":
+                return None
+            a = pkt.parse(r.reply)
+            if a.get("flags") != (SYN | ACK):
+                return None
+            if self.ctx.claim_cookie(a.seq, (self.e.cip, self.e.sip, self.sp, self.dp)):
+                break
+            self.sp = self.ctx.fresh_flow(self.e, self.ctx.rng.getrandbits(16), self.dp)
+        else:
             return None
         self.cookie = a.seq
         self.ack = (a.seq + 1) & 0xFFFFFFFF
